@@ -21,13 +21,15 @@ import (
 // CRC-32C / last offset / magic); the index must have a valid header and rows that point at
 // batch starts (file coordinates) in strictly increasing offset order; the point-in-time
 // restore scanner (collectRecoverableBatches with cutoff = +inf, scanRecord on every record,
-// buildRestorePlan with a far-future cutoff) must recover exactly the produced records.
+// buildRestorePlan with a far-future cutoff) must recover exactly the produced records, and so
+// must the whole restore (RecoverTopicToTimestamp over the in-memory S3, see
+// zz_verif_c07_restore_test.go, which also adds the wide timestamp-delta family).
 // The decoder halves (iceberg / sql / skeleton modules) regenerate the same corpus and feed
 // the (byte-identical) segments to their decoders.
 func TestVerifC07(t *testing.T) {
 	rep := vh.New(t, "C07")
 	defer rep.Finish()
-	rep.Rule = "cases = enum.C07Corpus (families 1x1 full record product, 1x2 all pairs, 1x3 all triples, edge offsets/timestamps, multi: every sequence of <=3 batches x <=3 records x interval {1,2,100} x {contiguous,gap}); signature = family + batch layout + wire features present + checks passed; non-trivial = more than one record or any null/empty/long field, header, or non-zero timestamp delta"
+	rep.Rule = "cases = enum.C07Corpus (families 1x1 full record product, 1x2 all pairs, 1x3 all triples, edge offsets/timestamps, multi: every sequence of <=3 batches x <=3 records x interval {1,2,100} x {contiguous,gap}) + main-half family wide (base timestamp {now,0} x every sequence of <=2, thorough <=3, records over the 43 varlong-width boundary timestamp deltas); every case also goes through RecoverTopicToTimestamp over the in-memory S3 with two cut-offs at/after all records; signature = family + batch layout + wire features present + checks passed; non-trivial = more than one record or any null/empty/long field, header, or non-zero timestamp delta"
 	rep.Assumptions = []string{
 		"uncompressed batches only (decoders and exact PITR explicitly reject compressed batches)",
 		"the independent builder enum.RefSegment/enum.MakeBatch is written from kafscale-spec.md and the Kafka v2 batch format",
@@ -49,7 +51,8 @@ func TestVerifC07(t *testing.T) {
 	deadline := vh.Deadline()
 	fam := map[string]int64{}
 	total := 0
-	enum.C07Corpus(thorough, func(c *enum.SegCase) bool {
+	stopped := false
+	visit := func(c *enum.SegCase) bool {
 		total++
 		if only >= 0 && c.Idx != only {
 			return true
@@ -59,17 +62,27 @@ func TestVerifC07(t *testing.T) {
 		}
 		if c.Idx%512 == 0 && time.Now().After(deadline) {
 			rep.Cap(fmt.Sprintf("deadline hit at corpus element %d", c.Idx))
+			stopped = true
 			return false
 		}
 		vC07Main(rep, c, thorough)
 		fam[c.Family]++
 		return true
-	})
+	}
+	enum.C07Corpus(thorough, visit)
+	if !stopped {
+		// main-half extension: every varlong width of the timestamp delta (zz_verif_c07_restore_test.go);
+		// indices continue after the shared corpus
+		vC07WideCorpus(thorough, total, visit)
+	}
 	for k, v := range fam {
 		rep.Count("cases_"+k, v)
 	}
 	rep.SetInfo("corpus_size", total)
 	rep.SetInfo("timestamp_deltas", enum.C07TimestampDeltas(thorough))
+	rep.SetInfo("wide_timestamp_deltas", vC07WideDeltas())
+	rep.SetInfo("wide_base_timestamps", vC07WideBaseTs)
+	rep.SetInfo("restore_cutoffs", []string{"max(record timestamps, batch base timestamps)", "far future (MaxInt64 ms)"})
 	rep.SetInfo("index_intervals", []int{1, 2, 100})
 }
 
@@ -306,6 +319,9 @@ func vC07Main(rep *vh.Report, c *enum.SegCase, thorough bool) {
 	} else if !plan.keep || !bytes.Equal(plan.segmentBytes, ref) || !bytes.Equal(plan.indexBytes, art.IndexBytes) || plan.baseOffset != c.BaseOffset() || plan.lastOffset != c.LastOffset() {
 		fail("pitr-plan-differs", "restore plan (cutoff far future) keep=%v base=%d last=%d, segment equal=%v index equal=%v", plan.keep, plan.baseOffset, plan.lastOffset, bytes.Equal(plan.segmentBytes, ref), bytes.Equal(plan.indexBytes, art.IndexBytes))
 	}
+	// --- the whole restore path as one more reader of the segment: RecoverTopicToTimestamp over an
+	// in-memory S3 holding exactly what the segment writer produced
+	vC07Restore(c, seg, art.IndexBytes, want, fail)
 }
 
 func vC07Hdrs(h []enum.Header) ([]string, [][]byte) {
